@@ -735,6 +735,7 @@ def run(c, facts):
     import lexrules
     c.run(lambda c: lexrules.no_skip(c, facts, 'C11.R12'))
     import c16 as _c16
+    c.run(lambda c: _c16.r8_encoding(c, facts, rule='C11.R17'))      # the columns of a published range are in the unit the server announced
     R13 = c.rule('C11.R13', 'RANGE-ENDS: the range published for a span is the conversion of its two ends against the whole text (shared with C16.R4)')
     c.shared(R13, _c16.r4_range_ends, 'C16.R4', facts)
     c.shared(R13, _c16.r13_range_verbatim, 'C16.R13', facts)
